@@ -21,7 +21,7 @@ def knownIn (l : List (Nat × Nat)) (ns : Nat) : Bool := l.any (fun kv => kv.2 =
 def attrKnownIn (l : List (Nat × Nat)) (ns : Nat) : Bool :=
   l.any (fun kv => kv.2 == ns && kv.1 != Env.emptyPrefix)
 
-theorem mem_prefixesByNamespace (l : List (Nat × Nat)) (ns p : Nat) :
+theorem mem_prefixesByNamespace_sc (l : List (Nat × Nat)) (ns p : Nat) :
     p ∈ prefixesByNamespace l ns ↔ (p, ns) ∈ l := by
   simp only [prefixesByNamespace, List.mem_map, List.mem_filter, List.mem_reverse]
   constructor
@@ -54,12 +54,12 @@ theorem elementPrefixByNamespace_isSome (l : List (Nat × Nat)) (ns : Nat) :
       apply Bool.eq_false_iff.2
       intro h
       obtain ⟨p, hp⟩ := (knownIn_iff l ns).1 h
-      have := (mem_prefixesByNamespace l ns p).2 hp
+      have := (mem_prefixesByNamespace_sc l ns p).2 hp
       simp [hP] at this
     simp [this]
   | cons p rest =>
     have : knownIn l ns = true :=
-      (knownIn_iff l ns).2 ⟨p, (mem_prefixesByNamespace l ns p).1 (by simp [hP])⟩
+      (knownIn_iff l ns).2 ⟨p, (mem_prefixesByNamespace_sc l ns p).1 (by simp [hP])⟩
     rw [this]
     split <;> simp
 
@@ -70,8 +70,8 @@ theorem attributePrefixByNamespace_isSome (l : List (Nat × Nat)) (ns : Nat) :
   rw [List.find?_isSome, attrKnownIn_iff]
   simp only [bne_iff_ne, ne_eq]
   constructor
-  · rintro ⟨p, hp, hne⟩; exact ⟨p, hne, (mem_prefixesByNamespace l ns p).1 hp⟩
-  · rintro ⟨p, hne, hp⟩; exact ⟨p, (mem_prefixesByNamespace l ns p).2 hp, hne⟩
+  · rintro ⟨p, hp, hne⟩; exact ⟨p, hne, (mem_prefixesByNamespace_sc l ns p).1 hp⟩
+  · rintro ⟨p, hne, hp⟩; exact ⟨p, (mem_prefixesByNamespace_sc l ns p).2 hp, hne⟩
 
 theorem elementPrefix_ok (env : Env) (top : List (Nat × Nat)) (name : Nat) :
     exceptIsOk (FStack.elementPrefix env [top] name) =
